@@ -1343,6 +1343,16 @@ func (h *H) compareWithModel() {
 		}
 		if body != impl {
 			h.res.Disagree(h.corr[i], map[string]any{"line": h.lines[i], "case": h.cases[i]}, m, impl)
+			// The model runs on independent implementations of the standards (Lean-native AES, GCM,
+			// ChaCha20-Poly1305, HMAC; RFC 3394 proved equal to the RFC's description). If the real code
+			// SUCCEEDED on a valid input and produced other bytes — or accepted what the independent
+			// implementation cannot open — that is a concrete interop failure, not only a broken tie.
+			c := h.cases[i]
+			genuine := c.Monitor == "roundtrip" || c.Monitor == "batch" || c.Monitor == "kw-wrap" || c.Monitor == "kw-roundtrip" || c.Monitor == "cbchmac-seal"
+			if genuine && x != "differ" && strings.HasPrefix(impl, "ok") && (c.Family == "sym" || c.Family == "kw" || c.Family == "cbchmac") {
+				c.Expect, c.Got = body, impl
+				h.res.Violate("sym-interop-mismatch", "the output for a valid input differs from an independent implementation of the standard the algorithm name denotes (or only the real code can open it)", c)
+			}
 		} else {
 			h.res.Traces++
 		}
